@@ -209,6 +209,7 @@ class KeptChannels(dict):
     (`ch = TdmsFile.open(p)[g][c]`, a helper that returns channels): looks like tf[group][channel] to `chan`."""
     def __init__(self, tf, w):
         dict.__init__(self)
+        self.file_status = getattr(tf, 'file_status', None)      # a plain record, taken while the file object exists
         for path, names in w.names.items():
             if len(names) == 2:
                 try:
